@@ -1,7 +1,7 @@
 """rule registry: groups, property -> rule ids"""
 import importlib
 
-GROUPS = ['rules_send']
+GROUPS = ['rules_send', 'rules_recv']
 
 
 def run_group(ctx, name):
